@@ -564,6 +564,7 @@ def _ok_sources(b):
 
 def run(ctx, t0):
     facts = ctx.facts()
+    pat.FACTS = facts
     rules = [rule_padding(facts), rule_multibyte(facts), rule_header_size(facts), rule_accounting(facts), rule_check_field(facts),
              rule_optional(facts), rule_loop(facts)]
     expl = ("Static, container-arithmetic clauses only: the padding, header-size, unpadded-size and filter-count terms are "
